@@ -1,147 +1,195 @@
-(** C01 — the hand-maintained classification of every map-ranging site of the consensus code.
+(** C01 — classification of every map-ranging site of the consensus code.
 
-    For every site the generator reports (Gen/C01Facts.v) this table holds the EXPECTED syntactic shape,
-    the expected callees of the loop body and the reason why the iteration order cannot reach
-    consensus state ([just]).  Every [just] that is a mathematical claim comes with a PROVED lemma of
-    the matching shape ([just_statement], [just_proved]).  [site_ok] fails — and with it the
-    obligation [every_map_site_classified] in Gen/C01Oblig.v — when
-      - a site appears that the table does not know (a new `for k := range someMap`),
-      - the body of a known site changes shape (a sort is dropped: SynCollectSorted -> SynCollectUnsorted),
-      - a known body starts calling something else (e.g. a store write is added).  *)
+    AUTOMATIC classes.  A site whose syntactic shape is order-insensitive by itself — keys collected and
+    sorted before use, body only inserts into / only deletes from another map or set, pure membership test,
+    pure integer accumulation — and whose body calls only functions of the [pure_callees] list is accepted
+    WITHOUT a table entry, wherever it lives and however it is named ([auto_okb]); each such class has a
+    proved order-independence lemma ([auto_statement], [auto_proved]).  Refactorings that move such loops
+    into helpers, rename them, or add more of them do not need the table.
+
+    HAND TABLE.  Only the shapes the classifier cannot decide (effectful bodies, searches whose
+    uniqueness is semantic, the one unsorted collector [Set.ToSlice]) need a table line: package, type of
+    the ranged map, shape, callees of the body, justification ([just]) — NOT function name or ordinal, so
+    a loop that moves to a helper keeps matching.  [site_ok] fails — and with it
+    [every_map_site_classified] in Gen/C01Oblig.v — when a site that is not automatically accepted matches
+    no line: a new effectful `for k := range someMap`, a sort that was dropped
+    (SynCollectSorted -> SynCollectUnsorted), a known body that starts calling something else. *)
 From Coq Require Import List Bool Arith ZArith String Permutation.
 Import ListNotations.
 Require Import Nib.C01.Sites Nib.C01.Model Nib.C01.PermSort Nib.C01.Proofs.
 Local Open Scope string_scope.
 
+(* ------------------------------------------------------------------ automatic classes *)
+
+Lemma existsb_perm {A} (p : A -> bool) l l' : Permutation l l' -> existsb p l = existsb p l'.
+Proof.
+  induction 1; simpl; auto.
+  - rewrite IHPermutation. reflexivity.
+  - destruct (p x), (p y); reflexivity.
+  - congruence.
+Qed.
+
+Lemma find_key_eq_perm (x : Z) l l' : NoDup l -> Permutation l l' -> find (Z.eqb x) l = find (Z.eqb x) l'.
+Proof.
+  intros Hn Hp. apply find_unique_perm; auto.
+  intros a b _ _ Ha Hb. apply Z.eqb_eq in Ha, Hb. congruence.
+Qed.
+
+(** the order-independence statement behind each automatically accepted shape *)
+Definition auto_statement (sy : syn) : Prop :=
+  match sy with
+  | SynCollectSorted => forall l l' : list Z, Permutation l l' -> isort l = isort l'
+  | SynBuildMap =>
+      (* inserts keyed by the visited key (value may depend on the key and on the entry's own old value) *)
+      (forall (f : Z -> option Z -> option Z) (l l' : list Z) (m : kv Z), Permutation l l' ->
+         fold_left (fun m k => kv_adjust k (f k) m) l m = fold_left (fun m k => kv_adjust k (f k) m) l' m) /\
+      (* inserts of a CONSTANT value under a computed key; set.Add *)
+      (forall (g : Z -> Z) (c : Z) (l l' : list Z) (m : kv Z), Permutation l l' ->
+         fold_left (fun m k => kv_set (g k) c m) l m = fold_left (fun m k => kv_set (g k) c m) l' m) /\
+      (forall (g : Z -> Z) (l l' : list Z) (s : list Z), Permutation l l' ->
+         fold_left (fun s k => zset_add (g k) s) l s = fold_left (fun s k => zset_add (g k) s) l' s) /\
+      (* deletes only *)
+      (forall (p : Z -> bool) (g : Z -> Z) (l l' : list Z) (m : kv Z), Permutation l l' ->
+         fold_left (fun m k => if p k then kv_del (g k) m else m) l m =
+         fold_left (fun m k => if p k then kv_del (g k) m else m) l' m)
+  | SynMember =>
+      (forall (p : Z -> bool) (l l' : list Z), Permutation l l' -> existsb p l = existsb p l') /\
+      (forall (x : Z) (l l' : list Z), NoDup l -> Permutation l l' -> find (Z.eqb x) l = find (Z.eqb x) l')
+  | SynAccum => forall (w : Z -> Z) (l l' : list Z) (acc : Z), Permutation l l' ->
+      fold_left (fun acc k => (acc + w k)%Z) l acc = fold_left (fun acc k => (acc + w k)%Z) l' acc
+  | _ => True
+  end.
+
+Lemma kv_set_same_value_comm {V} (k1 k2 : Z) (c : V) (m : kv V) :
+  kv_set k1 c (kv_set k2 c m) = kv_set k2 c (kv_set k1 c m).
+Proof.
+  destruct (Z.eq_dec k1 k2) as [->|Hne]; auto. apply kv_set_comm; auto.
+Qed.
+
+Theorem auto_proved : forall sy, auto_statement sy.
+Proof.
+  destruct sy; simpl; auto.
+  - exact isort_perm_eq.
+  - split; [|split; [|split]].
+    + intros; apply keyed_fold_perm; auto.
+    + intros g c l l' m Hp. apply fold_left_perm_comm; auto. intros; apply kv_set_same_value_comm.
+    + intros g l l' s Hp. apply fold_left_perm_comm; auto. intros; apply zset_add_comm.
+    + intros p g l l' m Hp. apply fold_left_perm_comm; auto.
+      intros a b s _ _. destruct (p a), (p b); auto. apply kv_del_comm.
+  - split; [intros; apply existsb_perm; auto|intros; apply find_key_eq_perm; auto].
+  - intros; apply sum_fold_perm; auto.
+Qed.
+
+(** callees that may appear inside an automatically accepted body: total functions of their arguments
+    without access to any store or package-level state (address derivation, stringers, constructors) *)
+Definition pure_callees : list string := [
+  "authtypes.NewModuleAddress"; "authtypes.NewModuleAddress().String";
+  "_.GetAddress"; "_.GetAddress().String"; "_.String"; "_.Bytes";
+  "NewPair"; "bytes.Equal"; "bytes.Compare"; "strings.Compare"
+].
+
+Definition ends_with (suffix s : string) : bool :=
+  let n := String.length s in let k := String.length suffix in
+  Nat.leb k n && String.eqb (substring (n - k) k s) suffix.
+
+(** stringers / byte views (x.String(), x.Bytes()) are pure by convention, whatever they are called on *)
+Definition is_pure (c : string) : bool :=
+  existsb (String.eqb c) pure_callees || ends_with ".String" c || ends_with ".Bytes" c.
+
+Definition auto_syn (sy : syn) : bool :=
+  match sy with SynCollectSorted | SynBuildMap | SynMember | SynAccum => true | _ => false end.
+
+Definition auto_okb (s : site) : bool := auto_syn (s_syn s) && forallb is_pure (s_calls s).
+
+(* ------------------------------------------------------------------ hand table *)
+
 Inductive just :=
-| JSorted      (* keys collected, sorted, THEN used *)
-| JBuildMap    (* body only inserts / deletes entries of another map or set keyed by what it visits *)
-| JUnique      (* search with at most one match *)
-| JSum         (* commutative accumulation *)
+| JUnique      (* search with at most one match (semantic uniqueness) *)
 | JKeyed       (* one effect per visited key on pairwise disjoint store keys / registries *)
 | JViaUses     (* the order escapes to the callers: every caller is classified separately (ToSlice uses) *)
-| JLogOnly     (* reaches only events / log text: not part of app hash, tx results or validator updates *)
-| JDebug.      (* debugging helper without callers in block execution *)
+| JLogOnly.    (* reaches only events / log text: not part of app hash, tx results or validator updates *)
 
-(** the order-independence lemma behind each class (over the model's representation of maps) *)
 Definition just_statement (j : just) : Prop :=
   match j with
-  | JSorted => forall l l' : list Z, Permutation l l' -> isort l = isort l'
-  | JBuildMap =>
-      (forall (g : Z -> Z) (l l' : list Z) (m : kv Z), Permutation l l' ->
-         fold_left (fun m k => kv_set k (g k) m) l m = fold_left (fun m k => kv_set k (g k) m) l' m) /\
-      (forall (l l' : list Z) (s : list Z), Permutation l l' ->
-         fold_left (fun s k => zset_add k s) l s = fold_left (fun s k => zset_add k s) l' s) /\
-      (forall (p : Z -> bool) (l l' : list Z) (m : kv Z), Permutation l l' ->
-         fold_left (fun m k => if p k then kv_del k m else m) l m =
-         fold_left (fun m k => if p k then kv_del k m else m) l' m)
   | JUnique => forall (p : Z -> bool) (l l' : list Z), Permutation l l' ->
       (forall x y, In x l -> In y l -> p x = true -> p y = true -> x = y) -> find p l = find p l'
-  | JSum => forall (w : Z -> Z) (l l' : list Z) (acc : Z), Permutation l l' ->
-      fold_left (fun acc k => (acc + w k)%Z) l acc = fold_left (fun acc k => (acc + w k)%Z) l' acc
   | JKeyed => forall (f : Z -> option Z -> option Z) (l l' : list Z) (m : kv Z), Permutation l l' ->
       fold_left (fun m k => kv_adjust k (f k) m) l m = fold_left (fun m k => kv_adjust k (f k) m) l' m
-  | JViaUses | JLogOnly | JDebug => True
+  | JViaUses | JLogOnly => True
   end.
 
 Theorem just_proved : forall j, just_statement j.
 Proof.
   destruct j; simpl; auto.
-  - exact isort_perm_eq.
-  - split; [|split].
-    + intros; apply build_map_fold_perm; auto.
-    + intros; apply build_set_fold_perm; auto.
-    + intros; apply delete_fold_perm; auto.
   - intros; apply find_unique_perm; auto.
-  - intros; apply sum_fold_perm; auto.
   - intros; apply keyed_fold_perm; auto.
 Qed.
 
-(** which syntactic shapes a justification may be attached to *)
 Definition compatible (sy : syn) (j : just) : bool :=
   match j, sy with
-  | JSorted, SynCollectSorted => true
-  | JBuildMap, SynBuildMap => true
   | JUnique, SynLookup => true
-  | JSum, SynAccum => true
-  | JKeyed, (SynEffect | SynBuildMap) => true
+  | JKeyed, (SynEffect | SynBuildMapLoose) => true
   | JViaUses, SynCollectUnsorted => true
   | JLogOnly, (SynLookup | SynEffect) => true
-  | JDebug, _ => true
   | _, _ => false
   end.
 
 Record entry := mk_entry {
-  e_pkg : string; e_fn : string; e_ord : nat; e_syn : syn; e_calls : list string; e_just : just }.
+  e_pkg : string; e_type : string; e_syn : syn; e_calls : list string; e_just : just;
+  e_where : string   (* where it is today — informational only *) }.
 
-(** The table.  One line per `for … range <map>` of the consensus-scope packages. *)
 Definition table : list entry := [
-  (* app wiring (runs at start-up, identical on every node; the results are maps / keyed registrations) *)
-  mk_entry "app" "BlockedAddresses" 0 SynBuildMap ["authtypes.NewModuleAddress"; "authtypes.NewModuleAddress().String"] JBuildMap;
-  mk_entry "app" "NewNibiruApp" 0 SynEffect ["_.RegisterStores"; "panic"] JKeyed;        (* one store mounted per key *)
-  mk_entry "app" "NewNibiruApp" 1 SynBuildMap ["delete"] JBuildMap;
-  mk_entry "app" "NibiruApp.ModuleAccountAddrs" 0 SynBuildMap ["authtypes.NewModuleAddress"; "authtypes.NewModuleAddress().String"] JBuildMap;
-  mk_entry "eth/eip712" "sortedJSONKeys" 0 SynCollectSorted [] JSorted;
-  (* asset registry: sets *)
-  mk_entry "x/common/asset" "registry.BaseDenoms" 0 SynBuildMap ["_.Add"] JBuildMap;
-  mk_entry "x/common/asset" "registry.Pair" 0 SynLookup ["NewPair"] JUnique;              (* q == quote: keys of a map are unique *)
-  mk_entry "x/common/asset" "registry.QuoteDenoms" 0 SynBuildMap ["_.Add"] JBuildMap;
-  mk_entry "x/common/asset" "registry.QuoteDenoms" 1 SynBuildMap ["_.Add"] JBuildMap;
-  (* omap *)
-  mk_entry "x/common/omap" "SortedMap.Data" 0 SynBuildMap [] JBuildMap;
-  mk_entry "x/common/omap" "SortedMap.Union" 0 SynBuildMap [] JBuildMap;
-  mk_entry "x/common/omap" "SortedMap.ensureOrder" 0 SynCollectSorted [] JSorted;
-  (* set: the one place where map order leaves a function; its callers are in [ts_table] *)
-  mk_entry "x/common/set" "Set.ToSlice" 0 SynCollectUnsorted [] JViaUses;
-  (* evm *)
-  mk_entry "x/evm/evmmodule" "ProvideNibiruBankModule" 0 SynBuildMap ["_.GetAddress"; "_.GetAddress().String"] JBuildMap;
-  mk_entry "x/evm/keeper" "Keeper.AddPrecompiles" 0 SynEffect ["_.precompiles.Set"] JKeyed;   (* om_set steps commute: add_precompiles_deterministic *)
-  mk_entry "x/evm/precompile" "InitPrecompiles" 0 SynBuildMap [] JBuildMap;
-  mk_entry "x/evm/precompile" "methodById" 0 SynLookup ["bytes.Equal"] JUnique;              (* method_by_id_deterministic *)
-  mk_entry "x/evm/statedb" "PrecompileCalled.Revert" 0 SynBuildMap [] JBuildMap;
-  mk_entry "x/evm/statedb" "PrecompileCalled.Revert" 1 SynBuildMap ["delete"] JBuildMap;
-  mk_entry "x/evm/statedb" "StateDB.CacheCtxForPrecompile" 0 SynBuildMap [] JBuildMap;
-  mk_entry "x/evm/statedb" "StateDB.CacheCtxForPrecompile" 1 SynBuildMap [] JBuildMap;
-  mk_entry "x/evm/statedb" "StateDB.DebugDirtiesCount" 0 SynAccum [] JSum;
-  mk_entry "x/evm/statedb" "StateDB.DebugStateObjects" 0 SynBuildMap [] JDebug;
-  mk_entry "x/evm/statedb" "Storage.SortedKeys" 0 SynCollectSorted [] JSorted;             (* commit_deterministic *)
-  mk_entry "x/evm/statedb" "journal.sortedDirties" 0 SynCollectSorted [] JSorted;          (* commit_deterministic *)
-  (* oracle EndBlock *)
-  mk_entry "x/oracle/keeper" "Keeper.UpdateExchangeRates" 0 SynEffect
-    ["_.EventManager"; "_.EventManager().EmitTypedEvent"; "_.ValAddress.String"] JLogOnly;   (* EndBlock events, in map order *)
-  mk_entry "x/oracle/keeper" "Keeper.incrementAbstainsByOmission" 0 SynBuildMap [] JKeyed;  (* abstain_by_omission_deterministic *)
-  mk_entry "x/oracle/keeper" "Keeper.incrementMissCounters" 0 SynEffect
-    ["_.MissCounters.GetOr"; "_.MissCounters.Insert"; "_.ValAddress.String"] JKeyed;  (* incr_miss_deterministic *)
-  mk_entry "x/oracle/keeper" "Keeper.rewardWinners" 0 SynEffect
+  (* start-up wiring: one store mounted per key *)
+  mk_entry "app" "map[string]*types.KVStoreKey" SynEffect ["_.RegisterStores"; "panic"] JKeyed "NewNibiruApp";
+  (* set: the one place where map order leaves a function; its callers are checked by [ts_use_okb] *)
+  mk_entry "x/common/set" "set.Set[T]" SynCollectUnsorted [] JViaUses "Set.ToSlice";
+  (* registry insertions through omap.Set commute: om_set_comm / add_precompiles_deterministic *)
+  mk_entry "x/evm/keeper" "map[common.Address]vm.PrecompiledContract" SynEffect ["_.precompiles.Set"] JKeyed "Keeper.AddPrecompiles";
+  (* ABI selectors are unique: method_by_id_deterministic + harness case CAbi *)
+  mk_entry "x/evm/precompile" "map[string]abi.Method" SynLookup ["bytes.Equal"] JUnique "methodById";
+  (* oracle EndBlock over the ValidatorPerformances map *)
+  mk_entry "x/oracle/keeper" "types.ValidatorPerformances" SynEffect
+    ["_.EventManager"; "_.EventManager().EmitTypedEvent"; "_.ValAddress.String"] JLogOnly "Keeper.UpdateExchangeRates (EndBlock events)";
+  mk_entry "x/oracle/keeper" "types.ValidatorPerformances" SynEffect
+    ["_.MissCounters.GetOr"; "_.MissCounters.Insert"; "_.ValAddress.String"] JKeyed "Keeper.incrementMissCounters (incr_miss_deterministic)";
+  mk_entry "x/oracle/keeper" "types.ValidatorPerformances" SynEffect
     ["_.Add"; "_.MulDec"; "_.MulDec().TruncateDecimal"; "_.StakingKeeper.Validator"; "_.distrKeeper.AllocateTokensToValidator";
-     "math.LegacyNewDec"; "math.LegacyNewDec().QuoInt64"; "sdk.NewDecCoinsFromCoins"] JKeyed;                      (* reward_winners_deterministic *)
-  mk_entry "x/oracle/types" "ValidatorPerformances.TotalRewardWeight" 0 SynAccum [] JSum    (* total_weight_deterministic *)
+     "math.LegacyNewDec"; "math.LegacyNewDec().QuoInt64"; "sdk.NewDecCoinsFromCoins"] JKeyed "Keeper.rewardWinners (reward_winners_deterministic)"
 ].
 
-Definition entry_matches (s : site) (e : entry) : bool :=
-  String.eqb (s_pkg s) (e_pkg e) && String.eqb (s_fn s) (e_fn e) && Nat.eqb (s_ord s) (e_ord e) &&
-  syn_eqb (s_syn s) (e_syn e) && strs_eqb (s_calls s) (e_calls e) && compatible (e_syn e) (e_just e).
+(** callee lists are compared as SETS modulo pure callees and order (temporaries, hoisted expressions and
+    added stringers do not change what a body does to consensus state) *)
+Definition effect_calls (cs : list string) : list string := filter (fun c => negb (is_pure c)) cs.
+Definition subset (a b : list string) : bool := forallb (fun x => existsb (String.eqb x) b) a.
+Definition same_effects (a b : list string) : bool :=
+  subset (effect_calls a) (effect_calls b) && subset (effect_calls b) (effect_calls a).
 
-(** a site is fine when it lives in tooling (rpc / cli / test helpers), or the table knows exactly it *)
+Definition entry_matches (s : site) (e : entry) : bool :=
+  String.eqb (s_pkg s) (e_pkg e) && String.eqb (s_type s) (e_type e) &&
+  syn_eqb (s_syn s) (e_syn e) && same_effects (s_calls s) (e_calls e) && compatible (e_syn e) (e_just e).
+
 Definition site_okb (s : site) : bool :=
   match s_scope s with
   | ScopeTooling => true
-  | ScopeConsensus => existsb (entry_matches s) table
+  | ScopeConsensus => auto_okb s || existsb (entry_matches s) table
   end.
 
 Definition site_ok (s : site) : Prop := site_okb s = true.
 
-(** a table line that no site matches any more is stale (a site was removed or renamed) *)
+(** a table line that no site matches any more is stale: harmless (the loop is gone), reported as a WARNING
+    by Gen/C01Oblig.v, never an obligation *)
 Definition entry_liveb (sites : list site) (e : entry) : bool :=
   existsb (fun s => scope_eqb (s_scope s) ScopeConsensus && entry_matches s e) sites.
 
-(** every entry is attached to a shape its lemma speaks about *)
 Theorem table_wellformed : forallb (fun e => compatible (e_syn e) (e_just e)) table = true.
 Proof. vm_compute. reflexivity. Qed.
 
-(** every entry's justification is a proved statement *)
 Theorem table_justified : Forall (fun e => just_statement (e_just e)) table.
 Proof. apply Forall_forall. intros e _. apply just_proved. Qed.
+
+(** every automatically accepted site has a proved lemma of its shape *)
+Theorem auto_sites_justified : forall s, auto_okb s = true -> auto_statement (s_syn s).
+Proof. intros s _. apply auto_proved. Qed.
 
 (* ------------------------------------------------------------------ uses of set.Set.ToSlice *)
 
@@ -154,8 +202,8 @@ Proof. apply isort_perm_eq. Qed.
 
 (** message-text uses that are accepted in consensus packages (the text of an error / log line is not
     part of ResponseDeliverTx{Code,Data,GasWanted,GasUsed}) — listed one by one *)
-Definition ts_message_uses : list (string * string * nat) := [
-  ("x/sudo/types", "MsgEditSudoers.ValidateBasic", 0%nat)
+Definition ts_message_uses : list (string * string) := [
+  ("x/sudo/types", "MsgEditSudoers.ValidateBasic")
 ].
 
 Definition ts_use_okb (u : ts_use) : bool :=
@@ -165,8 +213,7 @@ Definition ts_use_okb (u : ts_use) : bool :=
       match t_kind u with
       | UseLen | UseSorted => true
       | UseMessageText =>
-          existsb (fun e => String.eqb (t_pkg u) (fst (fst e)) && String.eqb (t_fn u) (snd (fst e)) && Nat.eqb (t_ord u) (snd e))
-            ts_message_uses
+          existsb (fun e => String.eqb (t_pkg u) (fst e) && String.eqb (t_fn u) (snd e)) ts_message_uses
       | UseRanged | UseEscapes => false
       end
   end.
@@ -179,24 +226,21 @@ Inductive inc_just :=
 | IQueryOnly     (* gRPC query handler *)
 | ITestHelper.   (* test fixture compiled into a non-test file *)
 
-Definition inc_table : list (string * string * string * nat * inc_kind * bool * inc_just) := [
-  ("x/common/omap", "omap.go", "SortedMap.Range", 0%nat, IncGoFunc, false, IOrderedChan);
-  ("x/epochs", "abci.go", "BeginBlocker", 0%nat, IncTimeNow, true, ITelemetry);
-  ("x/oracle", "abci.go", "EndBlocker", 0%nat, IncTimeNow, true, ITelemetry);
-  ("x/evm/keeper", "grpc_query.go", "Keeper.TraceEthTxMsg", 0%nat, IncGoFunc, false, IQueryOnly);
-  ("x/oracle/keeper", "test_utils.go", "CreateTestFixture", 0%nat, IncTimeNow, false, ITestHelper);
-  ("x/oracle/types", "test_utils.go", "GenerateRandomTestCase", 0%nat, IncMathRand, false, ITestHelper);
-  ("x/oracle/types", "test_utils.go", "GenerateRandomTestCase", 1%nat, IncMathRand, false, ITestHelper);
-  ("x/oracle/types", "test_utils.go", "GenerateRandomTestCase", 2%nat, IncMathRand, false, ITestHelper);
-  ("x/oracle/types", "test_utils.go", "GenerateRandomTestCase", 3%nat, IncMathRand, false, ITestHelper);
-  ("x/oracle/types", "test_utils.go", "GenerateRandomTestCase", 0%nat, IncTimeNow, false, ITestHelper)
+(** (package, function, kind, telemetry-argument?, why) — any number of occurrences inside the function *)
+Definition inc_table : list (string * string * inc_kind * bool * inc_just) := [
+  ("x/common/omap", "SortedMap.Range", IncGoFunc, false, IOrderedChan);
+  ("x/epochs", "BeginBlocker", IncTimeNow, true, ITelemetry);
+  ("x/oracle", "EndBlocker", IncTimeNow, true, ITelemetry);
+  ("x/evm/keeper", "Keeper.TraceEthTxMsg", IncGoFunc, false, IQueryOnly);
+  ("x/oracle/keeper", "CreateTestFixture", IncTimeNow, false, ITestHelper);
+  ("x/oracle/types", "GenerateRandomTestCase", IncMathRand, false, ITestHelper);
+  ("x/oracle/types", "GenerateRandomTestCase", IncTimeNow, false, ITestHelper)
 ].
 
-Definition inc_matches (i : inc_site) (e : string * string * string * nat * inc_kind * bool * inc_just) : bool :=
-  let '(pkg, file, fn, ord, kind, tele, j) := e in
-  String.eqb (i_pkg i) pkg && String.eqb (i_file i) file && String.eqb (i_fn i) fn && Nat.eqb (i_ord i) ord &&
+Definition inc_matches (i : inc_site) (e : string * string * inc_kind * bool * inc_just) : bool :=
+  let '(pkg, fn, kind, tele, j) := e in
+  String.eqb (i_pkg i) pkg && String.eqb (i_fn i) fn &&
   inc_kind_eqb (i_kind i) kind && Bool.eqb (i_tele i) tele &&
-  (* a telemetry justification needs the telemetry flag *)
   match j with ITelemetry => tele | _ => true end.
 
 Definition inc_okb (i : inc_site) : bool :=
